@@ -69,7 +69,7 @@ func (vc *VC) wf(st *State, v Term, t types.Type) {
 // Generate builds the verification script of the root function.
 func (vc *VC) Generate() {
 	if vc.loopMod == nil {
-		vc.loopMod = map[string]map[string]bool{}
+		vc.loopMod = map[string]map[string]string{}
 	}
 	for pass := 0; pass < 4; pass++ {
 		vc.reset()
